@@ -475,20 +475,26 @@ fn set_nofile_soft(limit: u64) -> bool {
 /// c12e: `n` = max_conns, `rounds` = how many times the descriptor table is exhausted while a client connects.
 /// The process's soft RLIMIT_NOFILE is lowered (prlimit), the table is filled with dummy descriptors so that the
 /// client's socket takes the last one and the server's accept() fails with EMFILE; then the dummies are closed.
-pub fn case_emfile(ctx: &mut Ctx, n: &str, rounds: &str) {
+/// `logger` = `live` (the events are captured and counted) or `dead`: the installed logger's receiver is gone, so every
+/// logging call inside the server reports `LoggerStoppedError` — a failed accept must not take the accept loop down with it.
+pub fn case_emfile(ctx: &mut Ctx, n: &str, rounds: &str, logger: &str) {
     let nn: usize = n.parse().unwrap();
     let rr: usize = rounds.parse().unwrap();
+    let dead = logger == "dead";
     let obs = guard(move || {
         let (log_tx, log_rx) = std::sync::mpsc::sync_channel::<servlin::log::internal::LogEvent>(10_000);
         let log_guard = servlin::log::set_global_logger(log_tx);
         // drained concurrently: a loop that logs without pause must not be able to block the harness on the logger lock
         let log_counter = std::thread::spawn(move || {
+            if dead { drop(log_rx); return 0; }
             log_rx.iter().filter(|e| { let mut b = Vec::new(); e.write_jsonl(&mut b).is_ok() && String::from_utf8_lossy(&b).contains("too many open files") }).count()
         });
+        if dead { std::thread::sleep(Duration::from_millis(30)); }
         let srv = start(nn);
         if !set_nofile_soft(192) { return "no-prlimit".to_string(); }
         let mut starved = 0;
         let mut served = 0;
+        let mut dropped = 0;
         for round in 0..rr {
             // let the previous round's connection be closed on the server side first
             std::thread::sleep(Duration::from_millis(150));
@@ -501,7 +507,9 @@ pub fn case_emfile(ctx: &mut Ctx, n: &str, rounds: &str) {
             };
             let _ = c.write_all(format!("GET /ok?{round} HTTP/1.1\r\n\r\n").as_bytes());
             let _ = c.set_read_timeout(Some(Duration::from_millis(250)));
-            if read_response(&mut c).starts_with("timeout") { starved += 1; }
+            // waiting in the backlog is what a failed accept means; a connection that is closed instead means the listener went away
+            let first = read_response(&mut c);
+            if first.starts_with("timeout") { starved += 1; } else if !first.starts_with("200") { dropped += 1; }
             drop(dummies);
             let _ = c.set_read_timeout(Some(Duration::from_secs(5)));
             if read_response(&mut c) == "200/2" { served += 1; }
@@ -516,15 +524,16 @@ pub fn case_emfile(ctx: &mut Ctx, n: &str, rounds: &str) {
         let stopped = stop(srv);
         drop(log_guard);
         let logged = log_counter.join().unwrap_or(0);
-        format!("starved={starved} served={served} emfile_logged={} full={} fresh={fresh_ok} max={max} stopped={}", u8::from(logged >= rr), u8::from(full), u8::from(stopped))
+        format!("starved={starved} dropped={dropped} served={served} emfile_logged={} full={} fresh={fresh_ok} max={max} stopped={}", u8::from(dead || logged >= rr), u8::from(full), u8::from(stopped))
     });
-    ctx.emit("c12e", &[n, rounds], &obs);
+    ctx.emit("c12e", &[n, rounds, logger], &obs);
 }
 
 pub fn run_emfile(ctx: &mut Ctx) {
-    let cases: &[(usize, usize)] = if ctx.thorough() { &[(1, 1), (1, 3), (2, 2), (3, 1), (4, 2)] } else { &[(1, 1), (2, 2)] };
-    for (i, (n, r)) in cases.iter().enumerate() {
-        if ctx.mine(i as u64 + 1) { case_emfile(ctx, &n.to_string(), &r.to_string()); }
+    let cases: &[(usize, usize, &str)] = if ctx.thorough() { &[(1, 1, "live"), (1, 3, "live"), (2, 2, "live"), (3, 1, "live"), (4, 2, "live"), (1, 2, "dead"), (3, 1, "dead")] }
+        else { &[(1, 1, "live"), (2, 2, "live"), (2, 1, "dead")] };
+    for (i, (n, r, l)) in cases.iter().enumerate() {
+        if ctx.mine(i as u64 + 1) { case_emfile(ctx, &n.to_string(), &r.to_string(), l); }
     }
 }
 
